@@ -101,6 +101,20 @@ func genHolePair(t *rapid.T, cx *h.Ctx, disjointMembers bool, stats *gen.Stats) 
 			a.Mem[0], a.Mem[1] = a.Mem[1], a.Mem[0]
 		}
 	}
+	if !disjointMembers && rapid.IntRange(0, 2).Draw(t, "cover") == 0 {
+		// a collection whose members overlap: the annulus plus a polygon that covers its hole (fully,
+		// partly, or exactly), optionally plus a further overlapping polygon
+		covers := [][4]float64{{1, 1, 13, 13}, {2, 2, 12, 12}, {3, 3, 11, 11}, {1, 5, 9, 15}, {2, 2, 7, 12}, {-1, -1, 17, 17}}
+		cv := covers[rapid.IntRange(0, len(covers)-1).Draw(t, "coverbox")]
+		mem := []gm.G{shell, {T: gm.Polygon, Rings: [][]gm.F{sq(cv[0], cv[1], cv[2], cv[3], rapid.Bool().Draw(t, "covercw"))}}}
+		if rapid.Bool().Draw(t, "cover2") {
+			mem = append(mem, gm.G{T: gm.Polygon, Rings: [][]gm.F{sq(6, -2, 9, 18, false)}})
+		}
+		if rapid.Bool().Draw(t, "coverfirst") {
+			mem[0], mem[1] = mem[1], mem[0]
+		}
+		a = gm.G{T: gm.GeometryCollection, Mem: mem}
+	}
 	// B: a small complex placed somewhere relative to A
 	place := rapid.SampledFrom([][2]int{{3, 3}, {5, 5}, {6, 6}, {2, 2}, {0, 0}, {12, 12}, {13, 1}, {7, 3}, {3, 8}}).Draw(t, "place")
 	cb := gen.DrawComplex(t, rapid.IntRange(1, 2).Draw(t, "kb"), place)
